@@ -44,8 +44,8 @@ def kill_tree(p):
         pass
 
 
-def run_verus(path, rlimit=60, wall=240, threads=8):
-    cmd = ["verus", path, "--rlimit", str(rlimit), "--output-json", "--time-expanded", "--num-threads", str(threads), "--multiple-errors", "4"]
+def run_verus(path, rlimit=60, wall=240, threads=8, extra=()):
+    cmd = ["verus", path, "--rlimit", str(rlimit), "--output-json", "--time-expanded", "--num-threads", str(threads), "--multiple-errors", "4"] + list(extra)
     t0 = time.time()
     p = subprocess.Popen(cmd, stdout=subprocess.PIPE, stderr=subprocess.PIPE, text=True, start_new_session=True,
                          cwd=os.path.dirname(path))
@@ -145,13 +145,42 @@ def run_program(repo, layout_name, build_dir, rlimit=60, wall=300):
             undecided.append("unclassified verus error: " + b["msg"])
             continue
         failures.append(name_failure(b, em))
+    # second opinion: Verus keeps Z3's non-linear arithmetic switched off; an algebraically equivalent rewrite of a formula
+    # (a*(b/c) for a*b/c, distributed factors) then fails an invariant although the obligation is TRUE. Before a failure of a
+    # unit is reported, the same generated file is checked once more with `smt.arith.nl=true`; a unit that verifies there IS
+    # verified (the obligations are the same, only the solver configuration differs). Canary failures are never retried away.
+    real = [f for f in failures if not (f.get("unit") or "").startswith("canary:")]
+    if real and not undecided and os.environ.get("VERIF_NO_NL_RETRY") != "1":
+        r2 = run_verus(gen, rlimit=rlimit, wall=wall, extra=["--smt-option", "smt.arith.nl=true"])
+        res["nl_retry"] = dict(cmd=r2["cmd"], wall=r2["wall"], timed_out=r2["timed_out"], dropped=[])
+        ok2 = False
+        try:
+            js2 = json.loads(r2["out"])
+            ok2 = not r2["timed_out"] and not js2.get("verification-results", {}).get("encountered-vir-error")
+        except Exception:
+            ok2 = False
+        if ok2:
+            blocks2 = [b for b in parse_diagnostics(r2["err"]) if b["level"] == "error" and not b["msg"].startswith("aborting due to")]
+            hard2 = [b for b in blocks2 if any(x in b["msg"] for x in RLIMIT) or not any(v in b["msg"] for v in VERIFY_FAIL)]
+            if not hard2:
+                f2 = [name_failure(b, em) for b in blocks2]
+                units2 = {f.get("unit") for f in f2}
+                kept = []
+                for f in failures:
+                    u = f.get("unit") or ""
+                    if u.startswith("canary:") or u in units2:
+                        kept.append(f)
+                    else:
+                        res["nl_retry"]["dropped"].append(f["obligation"])
+                failures = kept
+                res["wall"] += r2["wall"]
     res["failures"] = failures
     if undecided:
         res["reason"] = "; ".join(undecided)
         res["status"] = "undecided" if not failures else "fail"
     elif failures:
         res["status"] = "fail"
-    elif vr.get("success"):
+    elif vr.get("success") or res.get("nl_retry", {}).get("dropped"):
         res["status"] = "ok"
     else:
         res["reason"] = "verus reported failure without a diagnostic"
